@@ -19,24 +19,43 @@ func setenv(k, v string) { os.Setenv(k, v) }
 // ---- measured coverage ---------------------------------------------------
 
 type Cov struct {
-	mu        sync.Mutex
-	attrPairs map[string]map[[2]uint8]bool // producer -> (prev attr, next attr)
-	usPairs   map[string]map[[2]uint8]bool
-	clsPairs  map[string]map[[3]int]bool // producer -> (channel, prev class, next class)
-	triPairs  map[string]map[[2]int]bool // producer -> (prev class triple, next class triple)
-	forms     map[string]int
-	fuzzN     int
-	fuzzTrunc int
-	cells     int
-	rtScn     int
-	lossyScn  int
-	legacyScn int
-	longest   int
-	linkPairs map[string]map[[2]int]bool // producer -> (prev link state, next link state)
-	linkScn   int
-	linkTail  int // scenarios whose last cell carries a hyperlink
-	osc8Open  int
-	osc8Close int
+	mu         sync.Mutex
+	attrPairs  map[string]map[[2]uint8]bool // producer -> (prev attr, next attr)
+	usPairs    map[string]map[[2]uint8]bool
+	clsPairs   map[string]map[[3]int]bool // producer -> (channel, prev class, next class)
+	triPairs   map[string]map[[2]int]bool // producer -> (prev class triple, next class triple)
+	forms      map[string]int
+	fuzzN      int
+	fuzzTrunc  int
+	cells      int
+	rtScn      int
+	lossyScn   int
+	legacyScn  int
+	longest    int
+	linkPairs  map[string]map[[2]int]bool // producer -> (prev link state, next link state)
+	linkScn    int
+	linkTail   int // scenarios whose last cell carries a hyperlink
+	osc8Open   int
+	osc8Close  int
+	stallScn   int // scenarios run under the stalled-parser schedule
+	stallTimer int // ... in which the stall was ended by the library's Escape timer having run
+	stallCap   int // ... in which no timer ran while the parser was held (none was pending)
+	stallNoEsc int // ... whose string had no ESC to stall after
+}
+
+// stall records one stalled parse: 1 ended by a timer callback, 0 by the cap, -1 no ESC in the string.
+func (c *Cov) stall(how int) {
+	c.mu.Lock()
+	c.stallScn++
+	switch how {
+	case 1:
+		c.stallTimer++
+	case 0:
+		c.stallCap++
+	default:
+		c.stallNoEsc++
+	}
+	c.mu.Unlock()
 }
 
 func NewCov() *Cov {
@@ -197,7 +216,9 @@ func (c *Cov) Report() map[string]any {
 		"scenarios_round_trip": c.rtScn, "scenarios_fallback_no_round_trip": c.lossyScn,
 		"scenarios_legacy_sgr": c.legacyScn, "longest_sequence_cells": c.longest,
 		"scenarios_with_hyperlinked_cells": c.linkScn, "scenarios_last_cell_hyperlinked": c.linkTail,
-		"hyperlinks_opened_by_producers": c.osc8Open, "hyperlink_closings_by_producers": c.osc8Close}
+		"hyperlinks_opened_by_producers": c.osc8Open, "hyperlink_closings_by_producers": c.osc8Close,
+		"parses_with_parser_stalled_after_an_esc": c.stallScn, "stalls_during_which_an_escape_timer_ran": c.stallTimer,
+		"stalls_with_no_timer_pending": c.stallCap, "stalls_without_esc_in_string": c.stallNoEsc}
 }
 
 // ---- generators ------------------------------------------------------------
@@ -441,6 +462,63 @@ func Fixed() [][]CellD {
 		// graphemes that look like SGR syntax
 		{c("m", StyleD{At: bold}), c("[", StyleD{}), c("3", StyleD{Fg: idx(1)}), c("1", StyleD{Fg: idx(1)}), c("m", StyleD{})},
 	}
+}
+
+// StalledParse: short sequences of one-byte graphemes whose encodings are read by ParseStyledString while its
+// parser is held up after one ESC (the first, the last - the closing reset -, one in between).
+func StalledParse(rng *rand.Rand, thorough bool) []*Scn {
+	c := func(g string, s StyleD) CellD { return CellD{G: g, S: s} }
+	bold := attr(1)
+	seqs := [][]CellD{
+		{c("x", StyleD{At: bold})},
+		{c("a", StyleD{At: bold}), c("b", StyleD{}), c("c", StyleD{Fg: idx(1)})},
+		{c("m", StyleD{Fg: rgbc(1, 2, 3), Bg: idx(200)}), c("[", StyleD{Ul: idx(7), Us: 3}), c("1", StyleD{At: attr(127)})},
+	}
+	n := 3
+	if thorough {
+		n = 24
+	}
+	for i := 0; i < n; i++ {
+		seqs = append(seqs, RandCells(rng, 1+rng.Intn(6), []string{"a", "Z", "0", "~", "m", "[", ";", ":"}))
+	}
+	var out []*Scn
+	for i, cs := range seqs {
+		for j, p := range []string{"cells", "ss"} {
+			st := 1 + rng.Intn(40)
+			if i < 2 {
+				st = 1 + (i+j)%2 // the first ESC; the second (of the first sequence: the closing reset)
+			}
+			out = append(out, &Scn{Kind: "stalled-parse", Prod: p, Cells: cs, Stall: st})
+		}
+	}
+	return out
+}
+
+// JoiningNeighbours: neighbouring cells each of which holds a complete grapheme cluster, but whose texts written
+// back to back have no cluster boundary between them (UAX #29: Hangul L + V and LV + T, an emoji and a skin-tone
+// modifier (Extend), two regional indicators, a letter and a lone combining mark, a symbol and a variation selector), in
+// the same style (nothing need be written between them) and in different styles.
+func JoiningNeighbours(rng *rand.Rand) [][]CellD {
+	pairs := [][2]string{{"\u1100", "\u1161"}, {"\uac00", "\u11a8"}, {"\U0001F44D", "\U0001F3FD"}, {"\U0001F1EF", "\U0001F1F5"},
+		{"e", "\u0301"}, {"\u263a", "\ufe0f"}}
+	var out [][]CellD
+	for _, p := range pairs {
+		for k := 0; k < 3; k++ {
+			st := StyleD{}
+			switch k {
+			case 1:
+				st = StyleD{Fg: idx(1)}
+			case 2:
+				st = RandStyle(rng)
+			}
+			out = append(out, []CellD{{G: p[0], S: st}, {G: p[1], S: st}})                                         // the same style
+			out = append(out, []CellD{{G: "a", S: StyleD{}}, {G: p[0], S: st}, {G: p[1], S: st}, {G: "b", S: st}}) // in the middle
+			out = append(out, []CellD{{G: p[0], S: st}, {G: p[1], S: StyleD{At: attr(1 + rng.Intn(127))}}})        // an SGR falls between them
+		}
+	}
+	// three in a row, and the second pair member repeated
+	out = append(out, []CellD{{G: "\u1100"}, {G: "\u1161"}, {G: "\u11a8"}}, []CellD{{G: "\U0001F44D"}, {G: "\U0001F3FD"}, {G: "\U0001F3FD"}})
+	return out
 }
 
 // ---- hyperlinked cells -------------------------------------------------------
@@ -733,5 +811,10 @@ func Generate(rng *rand.Rand, thorough bool) []*Scn {
 	for i := 0; i < nrand/4; i++ {
 		add(forProducers("random", [][]CellD{RandCells(rng, rng.Intn(30), narrowPool)}, all3, true, MaskFull))
 	}
+	// (the families below were added later; they draw from rng last so that the scenarios above stay what they were)
+	// ParseStyledString under the schedule "parser held up after an ESC" (run one at a time by the driver)
+	out = append(out, StalledParse(rng, thorough)...)
+	// neighbouring cells whose texts would join into one cluster (the two codecs; the renderer's are C01/C12's)
+	add(forProducers("joining-neighbours", JoiningNeighbours(rng), []string{"cells", "ss"}, false, 0))
 	return out
 }
